@@ -74,14 +74,14 @@ def parse_proc_logs(logdir):
                 p["start"] = int(f[1])
                 for kv in f[2:]:
                     k, _, v = kv.partition("=")
-                    p[k] = v
+                    p[k] = int(v) if k in ("pid", "pgid", "ppid", "stdin_null") else v
                 p["argv"] = [unhx(a).decode("utf-8", "replace") for a in p.get("argv", "").split(",")] if p.get("argv") else []
                 p["cwd"] = unhx(p.get("cwd", "-")).decode("utf-8", "replace")
             elif f[0] == "child-start":
                 p["start"] = int(f[1]); p["child"] = True
                 for kv in f[2:]:
                     k, _, v = kv.partition("=")
-                    p[k] = v
+                    p[k] = int(v) if k in ("pid", "pgid", "ppid") else v
             elif f[0] == "env":
                 p["env"][unhx(f[1]).decode("utf-8", "replace")] = unhx(f[2]).decode("utf-8", "replace")
             elif f[0] == "sig":
